@@ -45,6 +45,9 @@ func c05World(r *rand.Rand) (files map[string]string, element, food string, dept
 	}
 	// a chain of references around a limit N, declared in shuffled order
 	n := 2 + r.Intn(5)
+	if chainOnlyLong := r.Intn(12) == 0; chainOnlyLong {
+		n = 60 + r.Intn(60) // long chains under a large limit
+	}
 	length := n - 1 + r.Intn(3)
 	for i := 1; i <= length; i++ {
 		next := fmt.Sprintf("ch%d", i+1)
